@@ -243,3 +243,8 @@ Section Kept.
     - injection H as <-. exact Hs.
   Qed.
 End Kept.
+
+Print Assumptions parseHost_keeps.
+Print Assumptions late_step.
+Print Assumptions late_run.
+Print Assumptions after_assign.
